@@ -418,6 +418,20 @@ class CFG:
             return {(n, st) for n, st in seen}
         return {n for n, _ in seen}
 
+    def loop_nodes(self, head_id):
+        """ids of the nodes that belong syntactically to the body of the loop with this head"""
+        st = self.nodes[head_id].stmt
+        inside = set()
+        for b in st.body:
+            for x in ast.walk(b):
+                inside.add(id(x))
+        out = set()
+        for n in self.nodes:
+            a = n.ast if n.ast is not None else n.stmt
+            if a is not None and id(a) in inside:
+                out.add(n.id)
+        return out
+
     def flag_states_at(self, nid):
         """the flag valuations with which node *nid* can be reached from the entry"""
         return [dict(st) for n, st in self.reach_flags([self.entry], include_start=True,
